@@ -37,6 +37,14 @@ type Proof struct {
 }
 
 func (p *Proof) IsValid(public Public) bool {
+	if p == nil {
+		return false
+	}
+	// every field is needed below: a proof with a missing field is not valid
+	if p.Z == nil ||
+		p.A == nil {
+		return false
+	}
 	if !arith.IsValidNatModN(public.N.N(), p.Z) {
 		return false
 	}
